@@ -417,8 +417,10 @@ def main(tier):
             sens[fam] = r2.violated
             if r2.violated != "ObsPreserved":
                 verdict.machinery_failure("model insensitive: naive %s satisfies ObsPreserved (%s)" % (fam, r2.error))
-        # deeper model-only run: three snippets per program (not replayed)
-        r3, _ = run_tlc("thorough", ALL_FAMILIES, export=False, bounds=(2, 2, 3), tag="deep")
+        # deeper model-only run: three snippets per program (not replayed).  Without the
+        # Encapsulate family: its pool of 24 snippets gives ~350 k request states at this depth,
+        # each carrying the refactored program - more than the 12 GB heap takes.
+        r3, _ = run_tlc("thorough", ALL_FAMILIES - {"enc"}, export=False, bounds=(2, 2, 3), tag="deep")
         sens["deep_model_only"] = r3.summary()
         if not r3.ok:
             verdict.machinery_failure("TLC deep run: %s %s" % (r3.violated, r3.error))
@@ -438,7 +440,12 @@ def main(tier):
             rnd.shuffle(plain)
             chosen += plain[:220] + featured[:50]
     else:
-        chosen = behs
+        # everything, except that the Encapsulate family (3/4 of all behaviours) is thinned to a
+        # seeded 30 % of its plain programs; featured ones are all kept
+        chosen = []
+        for b in behs:
+            if b["fam"] != "enc" or b["feats"] or rnd.random() < 0.3:
+                chosen.append(b)
     items = []
     for b in chosen:
         for s in pick_sites(b, rnd, tier):
@@ -514,7 +521,8 @@ def main(tier):
         "the model theorem is thin: the spec is mostly a generator of usage shapes with a predicted output; "
         "what TLC proves is that the refactorings as specified preserve that output",
         "sites are sampled per behaviour (one seeded site; thorough: for half of the behaviours a second one in "
-        "the other module)",
+        "the other module); thorough replays every behaviour of fac/mo/ltf/uf and every featured one, and a "
+        "seeded 30 % of the plain Encapsulate behaviours",
         "new names (get_f/set_f, create, MO) are fresh by construction",
     ])
     return code
